@@ -20,6 +20,8 @@ TRun == /\ l <= Len(Trc) /\ Ev.e = "Run" /\ l' = l + 1
            IN /\ Chk("command word accepted", o.ok)
               /\ IF want = Ev.out THEN TRUE
                  ELSE PrintT(<<"MISMATCH", "stdout differs at byte", FirstDiff(want, Ev.out), "line", l>>) /\ PrintT(<<"WANT", want>>) /\ FALSE
+              /\ Chk("a byte that is neither printable ASCII nor \\n \\r \\t reaches the terminal",
+                     (o.mode = "print" /\ ~o.dry) \/ \A i \in 1..Len(Ev.out) : Printable(Ev.out[i]))
               /\ Chk("exit status", (Ev.code # 0) = Fails(Ev.members, o, Ev.filters))
 TSpec == TInit /\ [][TRun]_l
 Accepted == LET dd == TLCGet("stats").diameter - 1
